@@ -146,6 +146,15 @@ def run(ctx):
             for en in ("parse", "parseb", "parsew"):
                 reqs.append(f"{en} {hx}")
                 ntails += 1
+    # instructions of 4093 .. 5000 words (word counts beyond 12 bits), followed by further instructions: one callback each, in order
+    for nmem in (4093, 4094, 4095, 5000):
+        big = I_(g.opv["TypeStruct"], "TypeStruct", None, 1, [Op_("w", idr_, 2 + (k % 9)) for k in range(nmem)])
+        w2 = instgen.header() + t32.words() + big.words() + [0x00020000 | g.opv["Capability"], 1, 0x00010000 | g.opv["Nop"]]
+        hx = instgen.to_bytes(w2).hex()
+        for en in ("parse", "parsew"):
+            reqs.append(f"{en} {hx}")
+        reqs.append(f"parse {hx} 3:s")
+        reqs.append(f"parse {hx} 4:e")
     ctx.coverage["truncated_tails"] = ntails
     impl, model = C.differential(ctx, reqs, "parse-script", oracle=oracle, shrink=False)
     for r, a in zip(reqs, impl):
